@@ -293,6 +293,15 @@ def first_use_task(arg):
         return (lib, pi, style, None, None, traceback.format_exc()[-600:])
 
 
+def _reload_pymoca():
+    import importlib
+    import pymoca.ast
+    import pymoca.parser
+    import pymoca.tree
+    for m in (pymoca.ast, pymoca.parser, pymoca.tree):
+        importlib.reload(m)
+
+
 def _relabel(obs, a, b):
     s = json.dumps(obs)
     for x, y in zip(a, b):
@@ -344,8 +353,21 @@ def sequence_task(arg):
                     continue
                 base = refs["A"] if rnd == "A2" else refs[rnd]
                 _compare(col, lib, names, files, "sequence", base[0], obs, base[1], what)
+        # every order as the first use of freshly re-imported pymoca modules: whatever ast / parser / tree keep at
+        # module level between parses is reset, the ANTLR recogniser stays warm (a new process per order costs
+        # seconds; the thorough tier does that too, see _first_use_tasks)
+        texts = _texts(files, LIT_A)
+        for pi, perm in enumerate(perms):
+            for style in ((0, 1) if tier == "thorough" or len(perms) <= 6 else (pi % 2,)):
+                _reload_pymoca()
+                obs = _observe(texts, names, perm, style)
+                col.bump("assemblies_after_module_reload")
+                _compare(col, lib, names, files, "fresh-modules", refs["A"][0], obs, refs["A"][1],
+                         f"order {perm} style {style} (first use after re-importing pymoca.ast / parser / tree)")
         if all(f[0] == "raise" for f in refs["A"][0][2]):
             col.bump("sequence_stage_vacuous_libraries")
+        # the first assembly of this process was the first parser use of a new process: reference of the first-use stage
+        col.first_use = (lib, 0, 0, perms[0], (names, files, refs["A"][0]), None)
     except Exception:
         import traceback
         col.harness_error(f"sequence stage {lib}: " + traceback.format_exc()[-600:])
@@ -381,18 +403,17 @@ def _first_use_compare(results):
 
 
 def _first_use_tasks(tier):
-    """thorough: every order x both styles; quick: 2- and 3-file libraries every order, 4-file libraries 7 of 24,
-    one style per order ('plain' has no within clause and 'prefixes' is covered by the sequence stage: thorough)."""
+    """Orders assembled as the very first parser use of a NEW process (seconds of process start-up each), compared
+    with the first assembly (order 0, style 0) of the library's sequence process.  thorough: every order, styles
+    alternating; quick: the reversed order (all `within` files before the package's own file) of every library
+    with a within clause."""
     tasks = []
     for lib in CONCRETE_LIBS:
         n = math.factorial(NFILES[lib])
-        if tier == "quick" and lib in ("plain", "prefixes"):
-            continue
-        for pi in range(n):
-            if tier == "thorough":
-                tasks += [(lib, pi, 0), (lib, pi, 1)]
-            elif n <= 6 or pi % 4 == 1 or pi == 0:
-                tasks.append((lib, pi, pi % 2))
+        if tier == "thorough":
+            tasks += [(lib, pi, pi % 2) for pi in range(1, n)]
+        elif lib != "plain":
+            tasks.append((lib, n - 1, 1))
     return tasks
 
 
@@ -413,6 +434,8 @@ def concrete_stages(tier, jobs):
             first.append(res)
         else:
             cols.append(res)
+            if getattr(res, "first_use", None):
+                first.insert(0, res.first_use)  # references go first
     return cols + [_first_use_compare(first)]
 
 
@@ -467,7 +490,7 @@ def main():
                 cols = [walk_stage((r["lib"], "thorough"))]
             else:
                 cols = [sequence_task((r["lib"], "thorough")),
-                        _first_use_compare(_fresh_pool_map(first_use_task, [(r["lib"], pi, s) for pi in range(math.factorial(NFILES[r["lib"]])) for s in (0, 1)], a.jobs))]
+                        _first_use_compare(_fresh_pool_map(first_use_task, [(r["lib"], pi, pi % 2) for pi in range(math.factorial(NFILES[r["lib"]]))], a.jobs))]
             hits = [(c, w) for col in cols for c, w, _ in col.violations if c == case]
             for c, w in hits[:3]:
                 print("REPRODUCED", c, w)
@@ -479,8 +502,8 @@ def main():
     rep = Report(PROP, a.tier, "model_checking", a.seed)
     spec = []
     for lib, pi, style in (HIST_QUICK if a.tier == "quick" else
-                           [(lib, pi, s) for lib in ("pkgconst", "nested", "imports-only") for pi in range(1, math.factorial(NFILES[lib])) for s in (0, 1)]
-                           + [("four", pi, pi % 2) for pi in range(1, 24) if pi % 3 == 2] + [("deep", 23, 0), ("deep", 9, 1)]):
+                           [(lib, pi, s) for lib in ("pkgconst", "nested") for pi in range(1, math.factorial(NFILES[lib])) for s in (0, 1)]
+                           + [("imports-only", pi, pi % 2) for pi in range(1, 6)] + [("four", pi, pi % 2) for pi in (5, 11, 17, 23)] + [("deep", 23, 0), ("deep", 9, 1)]):
         spec.append(("history", f"lib={lib},pi={pi},style={style}"))
     for lib in LIBNAMES:
         n = math.factorial(NFILES[lib])
@@ -491,7 +514,9 @@ def main():
             for style in ((0, 1) if (a.tier == "thorough" or lib in ("nested", "pkgconst")) else (pi % 2,)):
                 spec.append(("order", f"lib={lib},pi={pi},style={style}"))
     for lib in XLIBS:
-        perms = range(1, math.factorial(NFILES[lib])) if a.tier == "thorough" else XQUICK.get(lib, ())
+        perms = XQUICK.get(lib, ())
+        if a.tier == "thorough":  # every order of the 2- and 3-file libraries, 8 of 23 of the 4-file ones
+            perms = [p for p in range(1, math.factorial(NFILES[lib])) if NFILES[lib] < 4 or p % 3 == 2]
         for pi in perms:
             for style in ((0, 1) if (a.tier == "thorough" and NFILES[lib] < 4) else (pi % 2,)):
                 spec.append(("order", f"lib={lib},pi={pi},style={style}"))
